@@ -646,4 +646,8 @@ def project(t):
     if t[0] == "field" and isinstance(t[1], tuple) and t[1] and strip(t[1])[0] == "agg" and strip(t[1])[1] in ("tuple", "array") and \
             str(t[2]).isdigit() and int(t[2]) < len(strip(t[1])[4]):
         return strip(t[1])[4][int(t[2])]
+    if t[0] == "field" and isinstance(t[1], tuple) and t[1] and t[1][0] == "as" and t[2] == "0":
+        inner = strip(t[1][1])
+        if isinstance(inner, tuple) and inner and inner[0] == "agg" and inner[1] == "adt" and inner[3] == t[1][2] and len(inner[4]) == 1:
+            return inner[4][0]           # (Some{x} as Some).0 -> x
     return t
